@@ -671,6 +671,14 @@ func (g *GenPkg) fillMsg(m *Msg) {
 			continue
 		}
 		fl := lits[g.Info.Uses[vid]]
+		// a named package-level function in place of the closure: same parameter list and body, read the same way
+		if fl == nil {
+			if fo, ok := g.Info.Uses[vid].(*types.Func); ok && fo.Pkg() == g.Types {
+				if fd := g.Funcs[fo.Name()]; fd != nil && fd.Recv == nil && fd.Body != nil {
+					fl = &ast.FuncLit{Type: fd.Type, Body: fd.Body}
+				}
+			}
+		}
 		switch k {
 		case "Size":
 			m.Size = fl
